@@ -1,11 +1,12 @@
+\* vacuity guard: must be violated
 CONSTANTS
-  Shapes <- OneShape
+  Shapes <- Tiny
   MaxSC = 2
   Cols <- ColsDef
   Excluded <- ExcludedDef
   DecoyKinds <- DecoyKindsDef
-  DecoyRule <- AnyDecoy
+  DecoyRule <- NoDecoy
   ENFORCE_BIDS = TRUE
   DEEPER_WINS = TRUE
 SPECIFICATION Spec
-INVARIANT ExcludedIgnored
+INVARIANT NeverOverrides
